@@ -100,6 +100,13 @@ Theorem C15_optima_qtt_exact_full : forall argsort, argsort_ok argsort -> forall
     forall idx, inb (shape Y) idx -> (get OR Y jmin <= get OR Y idx <= get OR Y jmax)%R.
 Proof. exact optima_qtt_exact_full. Qed.
 
+(* for EVERY quantisation (any to_qtt: coarse e, rank caps; no contract): whenever optima_qtt returns, its values are the entries of
+   Y at the returned indices and the reported minimum does not exceed the reported maximum (the swap of commit 285e9fd) *)
+Theorem C15_optima_qtt_ordered : forall argsort orth pow2frac droot to_qtt co cs (Y : list (core R)) k res,
+  optima_qtt OR argsort orth pow2frac droot to_qtt co cs Y k = Ok res ->
+  r_ymin res = get OR Y (r_imin res) /\ r_ymax res = get OR Y (r_imax res) /\ (r_ymin res <= r_ymax res)%R.
+Proof. exact optima_qtt_ordered. Qed.
+
 (* unequal mode sizes, a mode size that is not a power of two, or mode size 1: ValueError *)
 Theorem C15_optima_qtt_rejects : forall argsort orth pow2frac droot to_qtt co cs (Y : list (core R)) k,
   (exists n, In n (tl (shape Y)) /\ n <> hd O (shape Y)) \/ (forall q, hd O (shape Y) <> 2 ^ q) \/ hd O (shape Y) = 1 ->
